@@ -222,6 +222,8 @@ pub struct GenOpts {
     pub density: u64,
     /// position-restricted siblings (RECORD_LAYOUT) are not emitted in ascending position order
     pub shuffle_positions: bool,
+    /// uninterpreted IF_DATA may contain a block named A2ML (its content reaches the parser as one raw text token)
+    pub ifdata_a2ml_block: bool,
 }
 
 impl GenOpts {
@@ -238,11 +240,14 @@ impl GenOpts {
             density: *t.pick(&[3u64, 6, 10]),
             // only C01 turns this on (its model comparison knows about the writer's reordering by position)
             shuffle_positions: false,
+            // only C03 turns this on: such a block does not survive a write/reload cycle unchanged (raw text
+            // becomes a quoted string), which is a property of this artificial construct, not a finding
+            ifdata_a2ml_block: false,
         }
     }
 
     pub fn plain(budget: i64) -> GenOpts {
-        GenOpts { budget, allow_a2ml: false, allow_ifdata: false, unicode: false, wild_numbers: false, float_overflow: false, escapes: false, raw_newline_strings: false, density: 6, shuffle_positions: false }
+        GenOpts { budget, allow_a2ml: false, allow_ifdata: false, unicode: false, wild_numbers: false, float_overflow: false, escapes: false, raw_newline_strings: false, density: 6, shuffle_positions: false, ifdata_a2ml_block: false }
     }
 }
 
